@@ -1,11 +1,325 @@
 import SageModel.Proto
+import SageModel.Model.C16
 
-/-! Driver ops for C16 (stub: no ops yet). -/
+/-! Driver ops for C16.
+
+`mzml <style> <filter:opt nat> <sn:opt nat> <n> event…  |  ok <n> spectrum… | err:<class> | panic`
+
+events
+  `S <tag> <id:optstr> <ref:optstr>`   start tag; tag ∈ sp sc bda bin pre ion o<k>
+  `E <tag>`                            end tag
+  `Z <tag>`                            empty element other than cvParam
+  `C <cv 0..20> <val> <unit>`          cvParam; val ∈ `a` | `g` | `f <f32 bits>` | `n <nat>`; unit ∈ s m o a
+  `T e` | `T b` | `T d <wire hex> <inflated: 0 | 1 hex>`
+spectrum
+  `<id hex> <level> <centroid> <tic> <start> <injection> <np> precursor… <nmz> f32… <nint> f32…`
+precursor
+  `<mz> <intensity:opt> <charge:opt> <ref:optstr> <window: 0 | 1 lo hi> <mobility:opt>`
+All floats are f32 bit patterns, NaN canonicalised to 2143289344. `<style>` only steers the
+harness's XML rendering (white space, attribute order, wrapper names) and is ignored here.
+
+`mzmlraw <filter> <sn> <hex bytes>`: arbitrary bytes; only the outcome class is judged
+(spec `bad:panic` / `bad:hang`; agree always).
+-/
 namespace Sage.C16
 open Sage.Proto
 
+/-- f32 as its bit pattern (so that events and spectra have decidable equality); arithmetic is IEEE
+    binary32 through `Float32` -/
+structure B32 where
+  bits : UInt32
+deriving DecidableEq, Repr
+
+def B32.f (x : B32) : Float32 := Float32.ofBits x.bits
+def B32.of (x : Float32) : B32 := ⟨x.toBits⟩      -- `toBits` canonicalises NaN
+
+def le32 (b : List UInt8) : UInt32 :=
+  b.foldr (fun x acc => acc * 256 + x.toUInt32) 0
+def le64 (b : List UInt8) : UInt64 :=
+  b.foldr (fun x acc => acc * 256 + x.toUInt64) 0
+
+instance : Num B32 where
+  zero := ⟨0⟩
+  ofNat n := B32.of (Float32.ofNat n)
+  isZero x := x.f == 0
+  div a b := B32.of (a.f / b.f)
+  neg a := B32.of (-a.f)
+  sixty := B32.of 60
+  ofLE32 b := B32.of (Float32.ofBits (le32 b))
+  ofLE64 b := B32.of (Float.ofBits (le64 b)).toFloat32
+
+/-! ### request parsing -/
+
+def optStr : P (Option String) := opt str
+
+def pTag : P Tag := do
+  let t ← tok
+  match t with
+  | "sp" => pure .spectrum
+  | "sc" => pure .scan
+  | "bda" => pure .binaryDataArray
+  | "bin" => pure .binary
+  | "pre" => pure .precursor
+  | "ion" => pure .selectedIon
+  | _ =>
+    if t.startsWith "o" then
+      match (t.drop 1).toString.toNat? with
+      | some k => pure (.other k)
+      | none => failure
+    else failure
+
+def cvTable : List Cv :=
+  [.zlib, .noCompression, .f64, .f32, .mzArray, .intensityArray, .noiseArray, .msLevel, .profile,
+   .centroid, .tic, .scanStart, .injectionTime, .selMz, .selInt, .selCharge, .isoLower, .isoUpper,
+   .invMobility, .other, .missing]
+
+def pCv : P Cv := do
+  let n ← nat
+  match cvTable[n]? with
+  | some c => pure c
+  | none => failure
+
+def pVal : P (Val B32) := do
+  let t ← tok
+  match t with
+  | "a" => pure .absent
+  | "g" => pure .garbage
+  | "f" => do let b ← nat; pure (.flt (B32.of (Float32.ofBits b.toUInt32)))
+  | "n" => do let n ← nat; pure (.nat n)
+  | _ => failure
+
+def pUnit : P TimeUnit := do
+  let t ← tok
+  match t with
+  | "s" => pure .seconds
+  | "m" => pure .minutes
+  | "o" => pure .other
+  | "a" => pure .absent
+  | _ => failure
+
+def pPayload : P Payload := do
+  let t ← tok
+  match t with
+  | "e" => pure .empty
+  | "b" => pure .badB64
+  | "d" => do
+    let w ← bytes
+    let i ← opt bytes
+    pure (.data w i)
+  | _ => failure
+
+def pEvent : P (Event B32) := do
+  let t ← tok
+  match t with
+  | "S" => do let g ← pTag; let i ← optStr; let r ← optStr; pure (.start g i r)
+  | "E" => do let g ← pTag; pure (.stop g)
+  | "Z" => do let g ← pTag; pure (.empty g)
+  | "C" => do let c ← pCv; let v ← pVal; let u ← pUnit; pure (.cv c v u)
+  | "T" => do let p ← pPayload; pure (.text p)
+  | _ => failure
+
+def pRequest : P (Config × List (Event B32)) := do
+  let _style ← tok
+  let f ← opt nat
+  let s ← opt nat
+  let evs ← list pEvent
+  pure ({ filter := f, sn := s }, evs)
+
+/-! ### reply rendering -/
+
+def outB (x : B32) : String := toString (B32.of x.f).bits.toNat
+def outStr (s : String) : String := hex (bytesOfStr s)
+def outOptStr : Option String → String
+  | none => "0"
+  | some s => "1 " ++ outStr s
+
+def outPrec (p : Precursor B32) : String :=
+  " ".intercalate
+    [outB p.mz, outOpt outB p.intensity, outOpt toString p.charge, outOptStr p.spectrumRef,
+     (match p.window with | none => "0" | some (a, b) => s!"1 {outB a} {outB b}"),
+     outOpt outB p.mobility]
+
+def outSpec (s : Spectrum B32) : String :=
+  " ".intercalate
+    [outStr s.id, toString s.level, outBool s.centroid, outB s.tic, outB s.startTime, outB s.injection,
+     outList outPrec s.precursors, outList outB s.mz, outList outB s.intensity]
+
+def errName : Err → String
+  | .malformed => "malformed" | .float => "float" | .int => "int" | .base64 => "base64" | .io => "io"
+
+def outResult : Except Err (List (Spectrum B32)) → String
+  | .error e => "err:" ++ errName e
+  | .ok sps => "ok " ++ outList outSpec sps
+
+/-! ### reading a reply back as named fields (used on the implementation's reply and on the
+rendering of the expected spectra alike, so that the first differing field names the clause) -/
+
+abbrev Fields := List (String × String)
+
+def optToks (k : Nat) : P String := do
+  let b ← nat
+  if b == 0 then pure "0" else do
+    let xs ← listN tok k
+    pure (" ".intercalate ("1" :: xs))
+
+def pPrecFields : P Fields := do
+  let mz ← tok
+  let int ← optToks 1
+  let ch ← optToks 1
+  let rf ← optToks 1
+  let win ← optToks 2
+  let mob ← optToks 1
+  pure [("precursor_mz", mz), ("precursor_intensity", int), ("precursor_charge", ch),
+        ("precursor_spectrum_ref", rf), ("precursor_isolation_window", win), ("precursor_ion_mobility", mob)]
+
+def pSpecFields : P Fields := do
+  let id ← tok
+  let level ← tok
+  let cen ← tok
+  let tic ← tok
+  let st ← tok
+  let inj ← tok
+  let precs ← list pPrecFields
+  let mz ← list tok
+  let int ← list tok
+  pure ([("id", id), ("ms_level", level), ("representation", cen), ("total_ion_current", tic),
+         ("scan_start_time", st), ("injection_time", inj), ("precursor_count", toString precs.length)]
+        ++ precs.flatten ++
+        [("mz_array", " ".intercalate mz), ("intensity_array", " ".intercalate int)])
+
+def pReplyOk : P (List Fields) := do
+  let t ← tok
+  if t != "ok" then failure else list pSpecFields
+
+def fieldsOf (sps : List (Spectrum B32)) : Option (List Fields) :=
+  Proto.run pReplyOk (words (outResult (.ok sps)))
+
+/-- name of the first field on which two spectra differ -/
+def firstDiff : Fields → Fields → Option String
+  | (n, a) :: r, (m, b) :: r' => if n != m then some n else if a != b then some n else firstDiff r r'
+  | [], [] => none
+  | (n, _) :: _, [] => some n
+  | [], (n, _) :: _ => some n
+
+def firstDiffDoc : List Fields → List Fields → Option String
+  | a :: r, b :: r' => match firstDiff a b with | some n => some n | none => firstDiffDoc r r'
+  | _, _ => none
+
+/-! ### recognising schema-shaped documents among event lists (unverified convenience: the result is
+only used after the round-trip check `els.flatMap events = strip evs`) -/
+
+abbrev Q := StateT (List (Event B32)) Option
+
+def takeCvs : List (Event B32) → List (Param B32) × List (Event B32)
+  | .cv c v u :: rest => let (ps, r) := takeCvs rest; (⟨c, v, u⟩ :: ps, r)
+  | evs => ([], evs)
+
+def qCvs : Q (List (Param B32)) := fun evs => some (takeCvs evs)
+
+def qExpect (e : Event B32) : Q Unit := fun
+  | x :: r => if x = e then some ((), r) else none
+  | [] => none
+
+def qMany {α} (p : Q α) : Nat → Q (List α)
+  | 0 => pure []
+  | n + 1 => fun evs =>
+    match p evs with
+    | none => some ([], evs)
+    | some (a, r) =>
+      match qMany p n r with
+      | some (as, r') => some (a :: as, r')
+      | none => none
+
+def qGroup (t : Tag) : Q (List (Param B32)) := do
+  qExpect (.start t none none)
+  let ps ← qCvs
+  qExpect (.stop t)
+  pure ps
+
+def qPrec (fuel : Nat) : Q (PrecEl B32) := fun evs =>
+  match evs with
+  | .start .precursor none ref :: rest =>
+    (do
+      let iso ← qCvs
+      let ions ← qMany (qGroup .selectedIon) fuel
+      let act ← qCvs
+      qExpect (.stop .precursor)
+      pure (⟨ref, iso, ions, act⟩ : PrecEl B32)) rest
+  | _ => none
+
+def qArr : Q (ArrEl B32) := do
+  qExpect (.start .binaryDataArray none none)
+  let ps ← qCvs
+  qExpect (.start .binary none none)
+  let evs ← get
+  match evs with
+  | .text p :: rest =>
+    set rest
+    qExpect (.stop .binary)
+    qExpect (.stop .binaryDataArray)
+    pure ⟨ps, p⟩
+  | _ => failure
+
+def qSpec (fuel : Nat) : Q (SpecEl B32) := fun evs =>
+  match evs with
+  | .start .spectrum (some id) none :: rest =>
+    (do
+      let ps ← qCvs
+      let scans ← qMany (qGroup .scan) fuel
+      let precs ← qMany (qPrec fuel) fuel
+      let arrs ← qMany qArr fuel
+      qExpect (.stop .spectrum)
+      pure (⟨id, ps, scans, precs, arrs⟩ : SpecEl B32)) rest
+  | _ => none
+
+def recognise (evs : List (Event B32)) : Option (List (SpecEl B32)) :=
+  let ev := strip evs
+  match qMany (qSpec ev.length) ev.length ev with
+  | some (els, []) => if els.flatMap SpecEl.events = ev then some els else none
+  | _ => none
+
+/-! ### the spec on the implementation's reply -/
+
+/-- what the code is known to return for a document with `total ion current = 0` elements -/
+def asCodedDoc (cfg : Config) (els : List (SpecEl B32)) : List (Spectrum B32) :=
+  els.flatMap fun e => if e.noTicZero then (denote cfg e).toList else (ticZeroAsCoded cfg).toList
+
+def specVerdict (cfg : Config) (evs : List (Event B32)) (impl : List String) : String :=
+  match impl with
+  | ["panic"] => "bad:panic"
+  | ["hang"] => "bad:hang"
+  | _ =>
+    match recognise evs with
+    | none => "na"
+    | some els =>
+      if !els.all SpecEl.wf then "na" else
+      match Proto.run pReplyOk impl with
+      | none => "bad:error_on_wellformed_document"
+      | some got =>
+        match fieldsOf (denoteDoc cfg els) with
+        | none => "na"
+        | some want =>
+          if got == want then "ok" else
+          -- the recorded defect, and nothing else, explains the difference?
+          if !els.all SpecEl.noTicZero && fieldsOf (asCodedDoc cfg els) == some got then
+            "bad:tic_zero_blank_spectrum"
+          else if got.length != want.length then "bad:spectrum_count"
+          else match firstDiffDoc got want with
+            | some n => "bad:" ++ n
+            | none => "bad:unknown"
+
 def handle (op : String) (args impl : List String) : Option Reply :=
   match op with
+  | "mzml" => do
+    let (cfg, evs) ← Proto.run pRequest args
+    let model := outResult (parse cfg evs)
+    pure (exact model (" ".intercalate impl) (specVerdict cfg evs impl))
+  | "mzmlraw" =>
+    let spec := match impl with
+      | ["panic"] => "bad:panic"
+      | ["hang"] => "bad:hang"
+      | _ => "ok"
+    pure { model := " ".intercalate impl, agree := true, spec := spec }
   | _ => none
 
 end Sage.C16
